@@ -209,47 +209,50 @@ extern "C" void h_long_orders(void) {
 
 // ---- (2) one inductive step from an arbitrary valid tree laid out on a complete skeleton of height H
 namespace {
-   constexpr int SLOTS = (1 << C08_H) - 1;
+   // Generates exactly the valid red-black shapes of height <= C08_H: a subtree of black height bh is null (bh == 0), a black node
+   // over two subtrees of black height bh-1, or - below a black parent - a red node over two black-rooted subtrees of black height bh.
+   // Only valid choices fork; keys are symbolic and constrained afterwards to the search order.
+   struct Gen {
+      rb::node<int>* all[1 << C08_H]; int count = 0;
+      rb::node<int>* make(rb::Color c, rb::node<int>* parent) {
+         auto* n = new rb::node<int>; n->data = (int)(nondet_ulong() & 0xff); n->color = c; n->left() = nullptr; n->right() = nullptr; n->parent() = parent; all[count++] = n; return n;
+      }
+      rb::node<int>* gen(int bh, bool parent_red, int depth, rb::node<int>* parent) {
+         // choices: 0 = black-rooted (null when bh == 0), 1 = red-rooted (only below a black parent)
+         bool red = !parent_red && depth <= C08_H && vp_flag();
+         if (red) { auto* n = make(rb::Color::Red, parent); n->left() = gen(bh, true, depth + 1, n); n->right() = gen(bh, true, depth + 1, n); return n; }
+         if (bh == 0) return nullptr;
+         if (depth > C08_H) { vp_assume(false); return nullptr; }
+         auto* n = make(rb::Color::Black, parent); n->left() = gen(bh - 1, false, depth + 1, n); n->right() = gen(bh - 1, false, depth + 1, n); return n;
+      }
+   };
 }
 extern "C" void h_own_step(void) {
    using Node = rb::node<int>;
    using Tree = Shape<rb::container<int>, Node>;
    Tree* t = new Tree;
-   Node* slot[SLOTS + 1] = { };
-   bool present[SLOTS + 1] = { };
-   int count = 0;
-   // presence: a node may be present only if its parent is; decided slot by slot (forks)
-   for (int i = 1; i <= SLOTS; ++i) {
-      bool p = vp_fork(nondet_ulong() & 1) != 0;
-      if (i > 1 && !present[i / 2]) p = false;
-      present[i] = p;
-      if (p) {
-         Node* n = new Node;
-         n->data = (int)(nondet_ulong() & 0xff);
-         n->color = (vp_fork(nondet_ulong() & 1) != 0) ? rb::Color::Red : rb::Color::Black;
-         n->left() = nullptr; n->right() = nullptr; n->parent() = nullptr;
-         slot[i] = n; ++count;
-         if (i > 1) { Node* par = slot[i / 2]; n->parent() = par; if (i % 2 == 0) par->left() = n; else par->right() = n; }
-      }
-   }
-   t->set_top(slot[1]); t->set_count(count);
-   // assume the representation invariant (same predicate as asserted afterwards)
+   Gen g; int bh = (int)vp_pick(C08_H + 1);
+   Node* root = g.gen(bh, true, 1, nullptr);                 // "parent red" forbids a red root
+   int count = g.count;
+   t->set_top(root); t->set_count(count);
+   // the representation invariant: same predicate as asserted afterwards (shape holds by construction, keys are constrained here)
    {
       Walk<Node> w; w.go(t->top(), nullptr, 1);
       bool valid = w.ok && w.n == count;
-      if (t->top()) valid = valid && t->top()->color == rb::Color::Black;
-      for (int i = 0; valid && i + 1 < w.n; ++i) if (!(IntCmp{}(w.order[i]->data, w.order[i + 1]->data) > 0)) valid = false;
+      for (int i = 0; i + 1 < w.n; ++i) valid = valid & (w.order[i]->data > w.order[i + 1]->data);      // one constraint, no forking
       vp_assume(valid);
    }
+   Node** slot = g.all; bool present[1 << C08_H]; for (int i = 0; i < (1 << C08_H); ++i) present[i] = i < count;
+   constexpr int SLOTS = (1 << C08_H) - 1;
    int key = (int)(nondet_ulong() & 0xff);
    bool dup = false;
-   for (int i = 1; i <= SLOTS; ++i) if (present[i] && slot[i]->data == key) dup = true;
+   for (int i = 0; i <= SLOTS; ++i) if (present[i]) dup = dup | (slot[i]->data == key);
    int* p = t->insert(key, IntCmp{});
    vp_assert(*p == key, 1);
    vp_assert(t->size() == count + (dup ? 0 : 1), 4);
    auto cmp = [](const Node& a, const Node& b) { return IntCmp{}(a.data, b.data); };
    check_shape(t->top(), count + (dup ? 0 : 1), cmp, 10);
-   for (int i = 1; i <= SLOTS; ++i) if (present[i]) vp_assert(t->find(slot[i]->data, IntCmp{}) == &slot[i]->data, 5);
+   for (int i = 0; i <= SLOTS; ++i) if (present[i]) vp_assert(t->find(slot[i]->data, IntCmp{}) == &slot[i]->data, 5);
    vp_assert(t->find(key, IntCmp{}) == p, 7);
    vp_done();
 }
